@@ -154,6 +154,7 @@ def flatten(ck, ctx):
 
 
 def run(ck, ctx):
+    C.adapter_census(ck, ctx, "flatten", ("depfile::", "task::", "smallmap::"))
     missing_empty(ck, ctx)
     parse_error(ck, ctx)
     flatten(ck, ctx)
